@@ -68,6 +68,8 @@ ASSUMPTIONS = ["settings.background.instant_exit_timeout is None (the default): 
                "the handler call + patch round-trip of a timer run suspends at least once; timers have idle > 0"]
 
 F1_SIG = {"site": "daemons._timer", "shape": "idle-only timer spins without suspending after its stopper is set"}
+F11_SIG = {"site": "daemons.daemon_killer",
+           "shape": "RuntimeError: the killer iterates running_daemons across awaits while exiting daemons remove themselves"}
 F10_SIG = {"site": "processing.process_spawning_cause",
            "shape": "DELETED event without deletionTimestamp: running daemons/timers are never asked to stop"}
 RUNNER = "harness.props.c09:run_scenario"
@@ -75,6 +77,7 @@ PRIMARY = ["FILTERS_MISMATCH", "RESOURCE_DELETED", "OPERATOR_PAUSING", "OPERATOR
 R2L = {"DONE": "done", "FILTERS_MISMATCH": "mismatch", "RESOURCE_DELETED": "deleted", "OPERATOR_PAUSING": "pausing",
        "OPERATOR_EXITING": "exiting", "DAEMON_SIGNALLED": "signalled", "DAEMON_CANCELLED": "cancelled",
        "DAEMON_ABANDONED": "abandoned"}
+DELTA_START = 2.0      # … and to start up (discovery + first listing)
 DELTA = 1.0            # virtual seconds the operator is given to react to an event (measured: a few 1/64 s)
 SPIN_LIMIT = 20000
 
@@ -335,7 +338,14 @@ def instrumented(sim: Any, R: Recorder) -> Iterator[None]:
 
     async def daemon_killer(**kw: Any) -> None:
         R.toggles[runner._incarnation.get()] = kw["operator_paused"]
-        await o_killer(**kw)
+        try:
+            await o_killer(**kw)
+        except Exception as e:  # noqa: BLE001  (CancelledError is the normal way out)
+            import traceback
+            tb = traceback.extract_tb(e.__traceback__)
+            R.log("killer-error", error=type(e).__name__, msg=str(e)[:200],
+                  where=[f"{os.path.basename(f.filename)}:{f.name}:{(f.line or '').strip()[:80]}" for f in tb[-2:]])
+            raise
 
     async def pause_daemons(**kw: Any) -> Any:
         op = kw.get("operator_paused")
@@ -804,3 +814,706 @@ def tie_requests(sc: dict, tr: dict) -> tuple[list, list, list, dict]:
         where.append({"kind": "exit", "sid": i["sid"], "t": i["t_end"]})
         stats["exits"] += 1
     return reqs, impls, where, stats
+
+
+# =================================================================================================
+#  Part 4 — the oracle: from the property statement, over implementation-level observations only
+# =================================================================================================
+def _matches(h: dict, labels: dict) -> bool:
+    want = h.get("opts", {}).get("labels")
+    if not want:
+        return True
+    for k, v in want.items():
+        if v == "__PRESENT__":
+            if k not in labels:
+                return False
+        elif v == "__ABSENT__":
+            if k in labels:
+                return False
+        elif labels.get(k) != v:
+            return False
+    return True
+
+
+def classify_stall(res: dict) -> tuple[str, dict]:
+    """(description, signature) of a stalled simulation, from what the worker left on stderr."""
+    err = res.get("stderr") or ""
+    k = err.rfind("@@C09-SPIN ")
+    if k >= 0:
+        try:
+            info = json.loads(err[k + len("@@C09-SPIN "):].splitlines()[0])
+        except ValueError:
+            info = {}
+        test = (info.get("loop_test") or "").replace(" ", "")
+        if info.get("func") == "_timer" and test == "memory.idle_reset_time<=started":
+            return (f"the event loop is blocked: _timer spins in `while {info.get('loop_test')}` (line {info.get('line')}) "
+                    f"without suspending", dict(F1_SIG))
+        return (f"the event loop is blocked: {info.get('func')} spins without suspending at {info.get('file')}:{info.get('line')}",
+                {"site": str(info.get("func")), "shape": "spins without suspending", "loop": info.get("loop_test")})
+    # the pool's wall-clock watchdog: read the faulthandler dump
+    if "in _timer" in err and "aiotime.py" in err and "daemons.py" in err:
+        import re
+        m = re.search(r'daemons\.py", line (\d+) in _timer', err)
+        line = int(m.group(1)) if m else None
+        func, test = (None, None)
+        if line is not None:
+            func, test = _while_test_at(str(_repo() / "kopf/_core/engines/daemons.py"), line)
+        if func == "_timer" and (test or "").replace(" ", "") == "memory.idle_reset_time<=started":
+            return (f"the event loop is blocked (watchdog): _timer at daemons.py:{line}", dict(F1_SIG))
+    return ("the simulation stalled or the worker died: " + err[-400:], {"site": "event loop", "shape": "stall or crash of the simulation"})
+
+
+def _repo() -> Any:
+    from ..core import REPO
+    return REPO
+
+
+def oracle(ctx: Ctx, sc: dict, res: dict) -> dict:
+    """Returns measured reaction latencies etc. for the evidence."""
+    info: dict[str, Any] = {"max_start_latency": 0.0, "max_stop_latency": 0.0}
+    rep = {"scenario": sc}
+    if res.get("stall"):
+        what, sig = classify_stall(res)
+        ctx.oracle_fail(what, {**rep, "stderr_tail": (res.get("stderr") or "")[-1500:]}, sig)
+        info["stall"] = sig
+        return info
+    tr = res["trace"]
+    if tr.get("sim_error"):
+        ctx.oracle_fail(f"the simulated loop made no progress: {tr['sim_error']}", rep,
+                        {"site": "event loop", "shape": "livelock at one virtual instant"})
+        return info
+    hs = spawning_handlers(sc)
+    inst = instances(tr)
+    marks = tr["marks"]
+    end = float(sc.get("end", 60.0))
+
+    def fail(what: str, sig: dict, **extra: Any) -> None:
+        ctx.oracle_fail(what, {**rep, **extra}, sig)
+
+    # ---- incarnations: [start, stop request / kill), pause windows --------------------------------------
+    stops_req = sorted(e[0] for e in sc.get("timeline", []) if e[1] == "stop")
+    incs: dict[int, dict] = {}
+    dead_ops: list[str] = []
+    for m in marks:
+        if m["what"] == "start":
+            incs[m["inc"]] = {"start": m["t"], "until": float("inf"), "how": None, "pauses": [], "stop_done": None}
+        elif m["what"] == "stopped" and m["inc"] in incs:
+            i = incs[m["inc"]]
+            req = end if m.get("final") else max([t for t in stops_req if t <= m["t"]] or [m["t"]])
+            i["until"], i["how"], i["stop_done"], i["result"] = req, "stop", m["t"], m["result"]
+        elif m["what"] == "killed" and m["inc"] in incs:
+            incs[m["inc"]]["until"], incs[m["inc"]]["how"] = m["t"], "kill"
+        elif m["what"] == "pause" and m["inc"] in incs:
+            incs[m["inc"]]["pauses"].append([m["t"], float("inf")])
+        elif m["what"] == "resume" and m["inc"] in incs and incs[m["inc"]]["pauses"]:
+            if incs[m["inc"]]["pauses"][-1][1] == float("inf"):
+                incs[m["inc"]]["pauses"][-1][1] = m["t"]
+        elif m["what"] == "alive?":
+            dead_ops = [name for name, alive in m["alive"].items() if not alive]
+    # the daemon killer (a root task) failing takes the operator down: report the root cause once per incarnation and
+    # do not report its consequences (daemons not reached, operator gone / raising the same error) separately
+    killer_crash: dict[int, float] = {}
+    for e in tr["ev"]:
+        if e["e"] == "killer-error":
+            dict_iter = e["error"] == "RuntimeError" and "changed size during iteration" in e["msg"] and \
+                any(":daemon_killer:" in w or ":iter_all_daemon_memories:" in w for w in e.get("where", []))
+            if dict_iter:
+                if e["inc"] not in killer_crash:
+                    fail(f"daemon_killer failed at t={e['t']}: {e['error']}: {e['msg']} ({e.get('where')})", dict(F11_SIG), t=e["t"])
+                killer_crash.setdefault(e["inc"], e["t"])
+            else:
+                fail(f"daemon_killer failed at t={e['t']}: {e['error']}: {e['msg']}",
+                     {"site": "daemons.daemon_killer", "shape": "raised", "error": e["error"]})
+    for n, i in incs.items():
+        if n in killer_crash:
+            i["until"] = min(i["until"], killer_crash[n])
+            i["how"] = "killer-crash"
+            continue
+        if i["how"] == "stop" and i.get("result") != "None":
+            fail(f"the operator raised on exit: {i.get('result')}", {"site": "running.operator", "shape": "operator raised on exit"})
+    if dead_ops and not killer_crash:
+        fail(f"operator {dead_ops} is not alive at the end of the history", {"site": "running.operator", "shape": "operator died"})
+    for ce in tr.get("cycle_errors", []):
+        if ce["error"] != "CancelledError":
+            fail(f"process_resource_event raised {ce['error']}", {"site": "processing.process_resource_event", "shape": "raised", "error": ce["error"]})
+    for e in tr["ev"]:
+        if e["e"] == "cyc-error" and e["error"] != "CancelledError":
+            fail(f"process_spawning_cause raised {e['error']}: {e.get('msg')}",
+                 {"site": "processing.process_spawning_cause", "shape": "raised", "error": e["error"]})
+
+    def listening(inc: int, a: float, b: float) -> bool:
+        """the incarnation is up and not paused during the whole of [a, b]"""
+        i = incs.get(inc)
+        if i is None or a < i["start"] or b >= i["until"]:
+            return False
+        return not any(p0 <= b and a < p1 for p0, p1 in i["pauses"])
+
+    def alive_inc(inc: int, t: float) -> bool:
+        i = incs.get(inc)
+        return i is not None and i["start"] <= t < i["until"]
+
+    # ---- objects --------------------------------------------------------------------------------------------
+    objs: dict[str, dict] = {}
+    for key, versions in tr["history"].items():
+        if "kopfexamples" not in key:
+            continue
+        for v in versions:
+            uid = v["meta"]["uid"]
+            o = objs.setdefault(uid, {"uid": uid, "versions": [], "born": v["t"], "gone": None, "marked": None})
+            o["versions"].append(v)
+            if v["event"] == "DELETED":
+                o["gone"] = v["t"]
+            elif v["meta"]["deletionTimestamp"] and o["marked"] is None:
+                o["marked"] = v["t"]
+
+    def labels_at(o: dict, t: float) -> dict | None:
+        cur = None
+        for v in o["versions"]:
+            if v["t"] <= t and v["event"] != "DELETED":
+                cur = v["meta"]["labels"]
+        return cur
+
+    def should_run(o: dict, h: dict, t: float) -> bool:
+        if t < o["born"] or (o["gone"] is not None and t >= o["gone"]) or (o["marked"] is not None and t >= o["marked"]):
+            return False
+        labs = labels_at(o, t)
+        return labs is not None and _matches(h, labs)
+
+    by_key: dict[tuple, list[dict]] = {}
+    for i in inst.values():
+        by_key.setdefault((i["inc"], i["uid"], i["hid"]), []).append(i)
+    for lst in by_key.values():
+        lst.sort(key=lambda i: i["seq_spawn"])
+
+    def t_end(i: dict) -> float:
+        return i["t_end"] if i["t_end"] is not None else float("inf")
+
+    def orphaned(i: dict) -> bool:
+        o = objs.get(i["uid"])
+        return bool(o and o["gone"] is not None and o["marked"] is None and i["t_spawn"] <= o["gone"] < t_end(i))
+
+    # ---- O1/O6: never two live instances; no respawn before the previous instance has ended ------------------------
+    for key, lst in by_key.items():
+        for a, b in zip(lst, lst[1:]):
+            if a["seq_end"] is None or a["seq_end"] > b["seq_spawn"]:
+                fail(f"handler {key[2]} of object {key[1]}: a second instance was created at t={b['t_spawn']} while the one "
+                     f"created at t={a['t_spawn']} had not ended", {"site": "daemons.spawn_daemons", "shape": "two live instances of one handler for one object"},
+                     first=a["sid"], second=b["sid"])
+    calls_by: dict[tuple, list[dict]] = {}
+    for c in tr["calls"]:
+        if c["kind"] in ("daemon", "timer"):
+            calls_by.setdefault((c["inc"], c["uid"], c["id"]), []).append(c)
+    for key, cs in calls_by.items():
+        cs.sort(key=lambda c: c["t"])
+        for a, b in zip(cs, cs[1:]):
+            ae = a["t_end"] if a["t_end"] is not None else float("inf")
+            if ae > b["t"] and alive_inc(key[0], b["t"]):
+                fail(f"{key[2]} of {key[1]} was entered at t={b['t']} while its invocation from t={a['t']} was still running",
+                     {"site": "daemons.spawn_daemons", "shape": "two live instances of one handler for one object"})
+    # ---- O5: an instance that exited on its own is not restarted within the incarnation ----------------------------
+    for key, lst in by_key.items():
+        for k, a in enumerate(lst):
+            if a["own_exit"] and lst[k + 1:]:
+                fail(f"{key[2]} of {key[1]} exited on its own at t={a['t_end']} and was started again at t={lst[k + 1]['t_spawn']}",
+                     {"site": "daemons.spawn_daemons", "shape": "restarted after exiting on its own"})
+    for key, cs in calls_by.items():
+        h = hs.get(key[2])
+        if h and h["kind"] == "daemon":
+            for k, c in enumerate(cs):
+                if c.get("outcome") == "own-exit" and not c.get("flag_at_exit") and cs[k + 1:]:
+                    fail(f"daemon {key[2]} returned by itself at t={c['t_end']} and was called again at t={cs[k + 1]['t']}",
+                         {"site": "daemons.spawn_daemons", "shape": "restarted after exiting on its own"})
+        if h and h["kind"] == "timer" and "interval" not in h.get("opts", {}) and "idle" not in h.get("opts", {}):
+            ok_runs = [c for c in cs if c.get("outcome") == "ok"]
+            if len(ok_runs) > 1:
+                fail(f"one-shot timer {key[2]} (no interval, no idle) ran {len(ok_runs)} times for {key[1]}",
+                     {"site": "daemons.spawn_daemons", "shape": "restarted after exiting on its own"})
+    # ---- O2: started when the object appears / starts matching ----------------------------------------------------------
+    eps = 1.0 / 128
+    for inc, iv in incs.items():
+        for uid, o in objs.items():
+            for hid, h in hs.items():
+                points = sorted({iv["start"], o["born"]} | {v["t"] for v in o["versions"]} | {p1 for _, p1 in iv["pauses"] if p1 != float("inf")})
+                lst = by_key.get((inc, uid, hid), [])
+                for a in points:
+                    d = DELTA_START if a == iv["start"] else DELTA
+                    if a < iv["start"] or not (should_run(o, h, a) and listening(inc, a, a + d)):
+                        continue
+                    if should_run(o, h, a - eps) and listening(inc, a - eps, a - eps):
+                        continue                                  # not a rising edge
+                    if not all(should_run(o, h, a + d * k / 16) for k in range(17)):
+                        continue                                  # does not stay that way long enough to judge
+                    if any(i["own_exit"] and t_end(i) <= a + d for i in lst):
+                        ctx.count("start_trigger", "exited on its own before: must stay down")
+                        continue
+                    if any(i["t_spawn"] < a < t_end(i) for i in lst):
+                        ctx.count("start_trigger", "previous instance still there (deferred)")
+                        continue
+                    got = [i for i in lst if a <= i["t_spawn"] <= a + d]
+                    if not got:
+                        fail(f"{hid} was not started for {uid} within {d}s of t={a} (object present, unmarked, matching; "
+                             f"operator up and not paused)", {"site": "daemons.spawn_daemons", "shape": "not started on appearance/match"},
+                             t=a, inc=inc, uid=uid, hid=hid)
+                    else:
+                        ctx.count("start_trigger", "started")
+                        info["max_start_latency"] = max(info["max_start_latency"], got[0]["t_spawn"] - a)
+    # ---- O3: asked to stop, with the reason ----------------------------------------------------------------------------------
+    def flagged_by(i: dict, reason: str | None, t: float) -> float | None:
+        for e in i["sets"]:
+            if e["t"] <= t and (reason in e["reason"] if reason else any(r in PRIMARY for r in e["reason"])):
+                return e["t"]
+        return None
+
+    def expect_flag(i: dict, T: float, reason: str | None, why: str, sig: dict) -> None:
+        if not (i["t_spawn"] <= T < t_end(i)) or not alive_inc(i["inc"], T + DELTA):
+            return
+        if t_end(i) <= T + DELTA:
+            ctx.count("stop_trigger", why + ": ended at once")
+            return
+        if reason is not None and flagged_by(i, None, T - 1.0 / 128) is not None and flagged_by(i, reason, T + DELTA) is None:
+            ctx.count("stop_trigger", why + ": was already asked to stop for another reason")
+            return
+        at = flagged_by(i, reason, T + DELTA)
+        if at is None:
+            fail(f"{i['hid']} of {i['uid']} (instance {i['sid']}) was not asked to stop within {DELTA}s of t={T}: {why}", sig,
+                 t=T, sid=i["sid"], sets=[(e["t"], e["reason"]) for e in i["sets"]])
+        else:
+            ctx.count("stop_trigger", why)
+            info["max_stop_latency"] = max(info["max_stop_latency"], max(0.0, at - T))
+
+    lateness = {"site": "daemons.stop_daemons", "shape": "not asked to stop"}
+    for i in inst.values():
+        o, h = objs.get(i["uid"]), hs.get(i["hid"])
+        if o is None or h is None:
+            continue
+        iv = incs.get(i["inc"])
+        if iv is None:
+            continue
+        if o["marked"] is not None and listening(i["inc"], o["marked"], o["marked"] + DELTA):
+            expect_flag(i, o["marked"], "RESOURCE_DELETED", "the object was marked for deletion", {**lateness, "reason": "RESOURCE_DELETED"})
+        if o["gone"] is not None and o["marked"] is None and listening(i["inc"], o["gone"], o["gone"] + DELTA):
+            expect_flag(i, o["gone"], None, "the object disappeared (DELETED without deletionTimestamp)", dict(F10_SIG))
+        vs = [v for v in o["versions"] if v["event"] != "DELETED"]
+        for prev, cur in zip(vs, vs[1:]):
+            T = cur["t"]
+            if _matches(h, prev["meta"]["labels"]) and not _matches(h, cur["meta"]["labels"]) and not cur["meta"]["deletionTimestamp"]:
+                stable = all(not _matches(h, v["meta"]["labels"]) for v in o["versions"] if T <= v["t"] <= T + DELTA and v["event"] != "DELETED") \
+                    and not (o["gone"] is not None and o["gone"] <= T + DELTA) and not (o["marked"] is not None and o["marked"] <= T + DELTA)
+                if stable and listening(i["inc"], T, T + DELTA):
+                    expect_flag(i, T, "FILTERS_MISMATCH", "the object stopped matching the filters", {**lateness, "reason": "FILTERS_MISMATCH"})
+        if orphaned(i):
+            continue        # reported once, above, as the disappearance
+        for p0, _p1 in iv["pauses"]:
+            if alive_inc(i["inc"], p0 + DELTA):
+                expect_flag(i, p0, "OPERATOR_PAUSING", "the operator was paused", {**lateness, "reason": "OPERATOR_PAUSING"})
+        if iv["how"] == "stop" and i["t_spawn"] <= iv["until"] < t_end(i):
+            T = iv["until"]
+            if t_end(i) > T + DELTA and flagged_by(i, None, T + DELTA) is None:
+                fail(f"{i['hid']} of {i['uid']} was not asked to stop within {DELTA}s of the operator's exit at t={T}",
+                     {**lateness, "reason": "OPERATOR_EXITING"}, sid=i["sid"])
+            else:
+                ctx.count("stop_trigger", "the operator exits")
+    # ---- O4: stop flag first, cancellation after the backoff, abandonment after backoff + timeout ---------------------------------
+    for i in inst.values():
+        h = hs.get(i["hid"])
+        if h is None:
+            continue
+        o = h.get("opts", {})
+        backoff = float(o.get("cancellation_backoff") or 0) if h["kind"] == "daemon" else 0.0
+        timeout = float(o.get("cancellation_timeout") or 0) if h["kind"] == "daemon" else 0.0
+        sets = [e for e in i["sets"] if e["reason"] != ["DONE"]]
+        when = sets[0]["t"] if sets else None
+        if sets and not any(r in PRIMARY for r in sets[0]["reason"]):
+            fail(f"instance {i['sid']} of {i['hid']}: the first thing set on the stopper is {sets[0]['reason']}, not a request to stop",
+                 {"site": "daemons.stop_daemons", "shape": "stage without the stop flag"})
+        for cnl in i["cancels"]:
+            if h["kind"] == "timer" or o.get("cancellation_timeout") is None:
+                fail(f"{i['hid']} (instance {i['sid']}) was cancelled by the stopping logic although it has no cancellation timeout",
+                     {"site": "daemons." + cnl["site"], "shape": "cancelled without a cancellation timeout"})
+            elif when is None or cnl["t"] < when + backoff:
+                fail(f"{i['hid']} (instance {i['sid']}) was cancelled at t={cnl['t']}; the stop flag was set at t={when}, "
+                     f"cancellation_backoff={backoff}", {"site": "daemons." + cnl["site"], "shape": "cancelled before the backoff"},
+                     sid=i["sid"])
+            else:
+                ctx.count("stages", "cancelled after backoff")
+        for e in sets:
+            if "DAEMON_ABANDONED" in e["reason"]:
+                if when is None or e["t"] < when + backoff + timeout:
+                    fail(f"{i['hid']} (instance {i['sid']}) was abandoned at t={e['t']}; flag at t={when}, backoff={backoff}, timeout={timeout}",
+                         {"site": "daemons." + e["site"], "shape": "abandoned before backoff+timeout"})
+                else:
+                    ctx.count("stages", "abandoned after timeout")
+            if "DAEMON_SIGNALLED" in e["reason"]:
+                ctx.count("stages", "signalled")
+    for key, cs in calls_by.items():
+        iv = incs.get(key[0])
+        for c in cs:
+            for tc in c.get("cancels", []):
+                lst = [i for i in by_key.get(key, []) if i["t_spawn"] <= tc <= t_end(i)]
+                explained = any(cn["t"] == tc for i in lst for cn in i["cancels"]) or iv is None or tc >= iv["until"]
+                if not explained:
+                    fail(f"daemon {key[2]} of {key[1]} got a cancellation at t={tc} that is not a stage of the stopping protocol",
+                         {"site": "daemons", "shape": "cancelled outside the staged protocol"})
+    return info
+
+
+# =================================================================================================
+#  Part 5 — the translator tie (T)
+# =================================================================================================
+COND_VOCAB = {
+    "daemon.task.done()": "a.taskDone",
+    "backoff is not None": "a.backoffSome",
+    "age < backoff": "a.ageLtBackoff",
+    "timeout is not None": "a.timeoutSome",
+    "age < timeout + (backoff or 0)": "a.ageLtDeadline",
+}
+DELAY_VOCAB = {"backoff - age": "Delay.backoffLeft", "timeout + (backoff or 0) - age": "Delay.deadlineLeft", "polling": "Delay.polling"}
+REASON_PREFIX = "stoppers.DaemonStoppingReason."
+LOG_CALLS = ("logger.debug", "logger.warning", "logger.info", "warnings.warn", "daemon.logger.debug", "daemon.logger.warning")
+WAIT_INSTANT = "await _wait_for_instant_exit(settings=settings, daemon=daemon)"
+
+
+def _is_log(st: ast.stmt) -> bool:
+    return isinstance(st, ast.Expr) and isinstance(st.value, ast.Call) and pyextract.norm(st.value.func) in LOG_CALLS
+
+
+def _reason(text: str) -> str:
+    if not text.startswith(REASON_PREFIX) or text[len(REASON_PREFIX):] not in R2L:
+        raise ExtractError(f"unknown stopping reason `{text}`")
+    return "Reason." + R2L[text[len(REASON_PREFIX):]]
+
+
+def _act_of(stmts: list[ast.stmt]) -> str:
+    """One branch of the stage chain → a Lean `Act` literal."""
+    setr, cancel, wait, delay, guarded = "none", False, False, "none", False
+    for st in stmts:
+        text = pyextract.norm(st)
+        if text == "pass" or _is_log(st):
+            continue
+        if isinstance(st, ast.If) and not st.orelse and text.startswith("if not stopper.is_set(reason="):
+            want = pyextract.norm(st.test)[len("not stopper.is_set(reason="):-1]
+            if setr != "none":
+                raise ExtractError("two stopper blocks in one stage branch")
+            for inner in st.body:
+                it = pyextract.norm(inner)
+                if it == f"stopper.set(reason={want})":
+                    setr = f"some {_reason(want)}"
+                elif it == "daemon.task.cancel()":
+                    cancel = True
+                elif it == WAIT_INSTANT:
+                    wait = True
+                elif not _is_log(inner):
+                    raise ExtractError(f"unexpected statement in a stopper block: `{it[:100]}`")
+            if setr == "none":
+                raise ExtractError(f"stopper block does not set its own reason: `{text[:100]}`")
+            continue
+        if isinstance(st, ast.If) and not st.orelse and pyextract.norm(st.test) == "not daemon.task.done()" \
+                and len(st.body) == 1 and pyextract.norm(st.body[0]).startswith("delays.append("):
+            expr = pyextract.norm(st.body[0])[len("delays.append("):-1]
+            if expr not in DELAY_VOCAB or delay != "none":
+                raise ExtractError(f"delay outside the vocabulary: `{expr}`")
+            delay, guarded = f"some {DELAY_VOCAB[expr]}", True
+            continue
+        if text.startswith("delays.append("):
+            expr = text[len("delays.append("):-1]
+            if expr not in DELAY_VOCAB or delay != "none":
+                raise ExtractError(f"delay outside the vocabulary: `{expr}`")
+            delay = f"some {DELAY_VOCAB[expr]}"
+            continue
+        raise ExtractError(f"statement outside the accepted shapes in a stage branch: `{text[:120]}`")
+    b = lambda x: "true" if x else "false"  # noqa: E731
+    return f"{{ set := {setr}, cancel := {b(cancel)}, wait := {b(wait)}, delay := {delay}, delayIfAlive := {b(guarded)} }}"
+
+
+def extract(ctx: Ctx) -> None:
+    src = ctx.repo / "kopf/_core/engines/daemons.py"
+    tree = pyextract.parse_file(src)
+    # ---- stop_daemons: the per-daemon loop body --------------------------------------------------------
+    fn = pyextract.find_def(tree, "stop_daemons")
+    loops = [st for st in pyextract.body_without_docstring(fn) if isinstance(st, ast.For)]
+    if len(loops) != 1 or pyextract.norm(loops[0].iter) != "list(daemons.values())":
+        raise ExtractError("stop_daemons is no longer one loop over list(daemons.values())")
+    body = loops[0].body
+    texts = [pyextract.norm(st) for st in body]
+    if "age = now - (stopper.when if stopper.when is not None else now)" not in texts:
+        raise ExtractError("stop_daemons: the age computation changed")
+    sure = [st for st in body if isinstance(st, ast.If) and pyextract.norm(st.test) == "not stopper.is_set(reason=reason)"]
+    if len(sure) != 1 or [pyextract.norm(x) for x in sure[0].body] != ["stopper.set(reason=reason)", WAIT_INSTANT] or sure[0].orelse:
+        raise ExtractError("stop_daemons: the 'this flag must be surely set' block changed")
+    chains = [st for st in body if isinstance(st, ast.If) and pyextract.norm(st.test) == "daemon.task.done()"]
+    if len(chains) != 1 or body.index(sure[0]) > body.index(chains[0]):
+        raise ExtractError("stop_daemons: the stage chain (if daemon.task.done(): ... elif ...) was not found after the flag block")
+    for st in body:
+        if st is sure[0] or st is chains[0] or isinstance(st, (ast.Assign, ast.Match)):
+            continue
+        raise ExtractError(f"stop_daemons: unexpected statement in the loop: `{pyextract.norm(st)[:100]}`")
+    tr = pyextract.BoolTranslator(COND_VOCAB)
+    node, parts = chains[0], []
+    while True:
+        parts.append(f"if {tr.tr(node.test)} then {_act_of(node.body)} else")
+        if len(node.orelse) == 1 and isinstance(node.orelse[0], ast.If):
+            node = node.orelse[0]
+            continue
+        if not node.orelse:
+            raise ExtractError("stop_daemons: the stage chain has no final else")
+        parts.append(_act_of(node.orelse))
+        break
+    stage = "\n    ".join(parts)
+    # timers have neither backoff nor timeout — in both functions
+    timers_none = True
+    matches = [st for st in body if isinstance(st, ast.Match)]
+    if len(matches) != 1:
+        raise ExtractError("stop_daemons: expected one `match handler`")
+    for case in matches[0].cases:
+        if pyextract.norm(case.pattern) == "handlers_.TimerHandler()":
+            got = {pyextract.norm(x) for x in case.body}
+            timers_none = timers_none and {"backoff = None", "timeout = None"} <= got
+    # ---- stop_daemon: the linear phases ---------------------------------------------------------------------
+    fn2 = pyextract.find_def(tree, "stop_daemon")
+    b2 = pyextract.body_without_docstring(fn2)
+    t2 = [pyextract.norm(st) for st in b2]
+    try:
+        k = t2.index("daemon.stopper.set(reason=reason)")
+    except ValueError:
+        raise ExtractError("stop_daemon: the unconditional `daemon.stopper.set(reason=reason)` is gone")
+    if t2[k + 1] != WAIT_INSTANT:
+        raise ExtractError("stop_daemon: no instant-exit wait after setting the reason")
+    head = b2[:k]
+    if len(head) != 2 or not isinstance(head[1], ast.If):
+        raise ExtractError("stop_daemon: unexpected prologue")
+    tn = head[1]
+    branch = tn.orelse[0] if tn.orelse and isinstance(tn.orelse[0], ast.If) else None
+    if branch is None or pyextract.norm(branch.test) != "isinstance(handler, handlers_.TimerHandler)" or \
+            {pyextract.norm(x) for x in branch.body} != {"backoff = None", "timeout = None"}:
+        timers_none = False
+    phases = []
+    for st in b2[k + 2:]:
+        if not isinstance(st, ast.If) or st.orelse:
+            raise ExtractError(f"stop_daemon: unexpected statement after the flag: `{pyextract.norm(st)[:100]}`")
+        test = pyextract.norm(st.test)
+        if test == "daemon.task.done()":
+            if not all(_is_log(x) for x in st.body):
+                raise ExtractError("stop_daemon: the 'has exited gracefully' block does more than logging")
+            continue
+        need_b = test == "not daemon.task.done() and backoff is not None"
+        need_t = test == "not daemon.task.done() and timeout is not None"
+        if not (need_b or need_t or test == "not daemon.task.done()"):
+            raise ExtractError(f"stop_daemon: phase guard outside the vocabulary: `{test}`")
+        setr, cancel, wait = None, False, "KWait.nothing"
+        for inner in st.body:
+            it = pyextract.norm(inner)
+            if it.startswith("daemon.stopper.set(reason="):
+                setr = _reason(it[len("daemon.stopper.set(reason="):-1])
+            elif it == "daemon.task.cancel()":
+                cancel = True
+            elif it == "await aiotasks.wait([daemon.task], timeout=backoff)":
+                wait = "KWait.backoff"
+            elif it == "await aiotasks.wait([daemon.task], timeout=timeout)":
+                wait = "KWait.timeout"
+            elif not _is_log(inner):
+                raise ExtractError(f"stop_daemon: unexpected statement in a phase: `{it[:100]}`")
+        if setr is None:
+            raise ExtractError("stop_daemon: a phase sets no reason")
+        bb = lambda x: "true" if x else "false"  # noqa: E731
+        phases.append(f"{{ needsBackoff := {bb(need_b)}, needsTimeout := {bb(need_t)}, set := {setr}, cancel := {bb(cancel)}, wait := {wait} }}")
+    # ---- _timer: is the after-run idle loop guarded by the stopper? -------------------------------------------------
+    guarded = timer_loop_guarded(tree)
+    out = pyextract.HEADER.format(src="kopf/_core/engines/daemons.py")
+    out += "import Kopf.Model.C09_Daemons\nnamespace Kopf.C09.Extracted\nopen Kopf.C09\n\n"
+    out += "/-- the if/elif chain of `stop_daemons` over task.done() / age / backoff / timeout -/\n"
+    out += f"def stage (a : Atoms) : Act :=\n    {stage}\n\n"
+    out += "/-- the linear phases of `stop_daemon` -/\n"
+    out += "def killerPhases : List KPhase :=\n  [ " + ",\n    ".join(phases) + " ]\n\n"
+    out += f"/-- both functions set backoff = timeout = None for timers -/\ndef timersForceNone : Bool := {'true' if timers_none else 'false'}\n\n"
+    out += ("/-- `while memory.idle_reset_time <= started [and not stopper.is_set()]` in `_timer` (informative: the theorems cover both) -/\n"
+            f"def timerIdleLoopGuarded : Bool := {'true' if guarded else 'false'}\n\n")
+    out += "end Kopf.C09.Extracted\n"
+    leanio.write_generated("Kopf/Extracted/C09.lean", out)
+
+
+def timer_loop_guarded(tree: ast.AST | None = None) -> bool:
+    """Reads the after-run idle loop of `_timer` from the source under test."""
+    if tree is None:
+        tree = pyextract.parse_file(_repo() / "kopf/_core/engines/daemons.py")
+    fn = pyextract.find_def(tree, "_timer")
+    loops = [n for n in ast.walk(fn) if isinstance(n, ast.While) and pyextract.norm(n.test).startswith("memory.idle_reset_time <= started")]
+    if len(loops) != 1:
+        raise ExtractError("_timer: the after-run idle loop `while memory.idle_reset_time <= started` was not found")
+    test = pyextract.norm(loops[0].test)
+    if test == "memory.idle_reset_time <= started":
+        return False
+    if test in ("memory.idle_reset_time <= started and (not stopper.is_set())", "memory.idle_reset_time <= started and not stopper.is_set()"):
+        return True
+    raise ExtractError(f"_timer: after-run idle loop with an unknown condition `{test}`")
+
+
+# =================================================================================================
+#  Part 6 — the check
+# =================================================================================================
+WALL = 90.0
+CHUNK = 400
+LEAN_TARGETS = ["Kopf.Tie.C09"]
+
+
+def _corpus() -> list[tuple[str, dict]]:
+    from ..core import load_corpus
+    out = []
+    for name, d in load_corpus(ID):
+        sc = d.get("scenario", d)
+        sc = dict(sc)
+        sc["runner"] = RUNNER
+        out.append((name, sc))
+    return out
+
+
+def _shape(req: list, impl: Any) -> tuple[Any, bool]:
+    """Abstracted case (for the distinct count) and whether it hit a non-default branch."""
+    if req[0] == "C09.cycle":
+        r = req[1]
+        hs = []
+        busy = False
+        for h, o in zip(r["handlers"], impl["handlers"]):
+            pre = h["pre"]
+            post = o["run"]
+            added = sorted(set(post["reasons"]) - set(pre["reasons"] if pre else [])) if post else None
+            hs.append([h["id"][0], h["backoff"] is not None, h["timeout"] is not None, h["matching"], h["forever"],
+                       None if pre is None else pre["reasons"], h["ex1"], h["ex2"], o["spawned"], added,
+                       bool(post and post["cancelled"] and not (pre and pre["cancelled"])), o["forever"]])
+            busy = busy or o["spawned"] or bool(added) or (pre is not None and post is None)
+        return ["cycle", r["marked"], r["paused"], r["deleted"], hs, len(impl["delays"])], busy
+    if req[0] == "C09.kplan":
+        r = req[1]
+        return ["killer", r["backoff"] is not None, r["timeout"] is not None, r["reason"], r["done"], [x[1] for x in impl]], True
+    return ["exit", req[1]["reasons"], impl["forever"]], True
+
+
+def _run_batch(ctx: Ctx, scenarios: list[dict], names: list[str | None], oracle_only: bool = False) -> dict:
+    from ..sim import pool
+    agg = {"stalls": 0, "f1_stalls": 0}
+    for k in range(0, len(scenarios), CHUNK):
+        chunk = scenarios[k:k + CHUNK]
+        results = pool.run_many(chunk, wall=WALL)
+        reqs: list = []
+        impls: list = []
+        where: list = []
+        for sc, res, name in zip(chunk, results, names[k:k + CHUNK]):
+            if "harness_error" in res:
+                raise RuntimeError(f"simulation failed: {res.get('harness_error')}\n{res.get('tb', '')[-1500:]}")
+            ctx.traces += 1
+            for h in sc["handlers"]:
+                if h["kind"] == "daemon":
+                    ctx.count("daemon_mode", h["daemon"]["mode"])
+                    ctx.count("backoff", h.get("opts", {}).get("cancellation_backoff"))
+                    ctx.count("timeout", h.get("opts", {}).get("cancellation_timeout"))
+                elif h["kind"] == "timer":
+                    o = h.get("opts", {})
+                    ctx.count("timer_cfg", ("interval" if "interval" in o else "") + ("+idle" if "idle" in o else "") or "neither")
+            for e in sc["timeline"]:
+                ctx.count("timeline_op", e[1])
+            info = oracle(ctx, sc, res)
+            if res.get("stall"):
+                agg["stalls"] += 1
+                agg["f1_stalls"] += int(info.get("stall") == F1_SIG)
+                ctx.count("result", "stall: " + str((info.get("stall") or {}).get("shape")))
+                ctx.case(key=["stall", info.get("stall")], nontrivial=True)
+                continue
+            ctx.count("result", "completed")
+            ctx.extra["max_start_latency_s"] = max(ctx.extra.get("max_start_latency_s", 0.0), info["max_start_latency"])
+            ctx.extra["max_stop_latency_s"] = max(ctx.extra.get("max_stop_latency_s", 0.0), info["max_stop_latency"])
+            if oracle_only:
+                continue
+            tr = res["trace"]
+            rq, im, wh, st = tie_requests(sc, tr)
+            for g in st["log_gaps"][:3]:
+                ctx.tie_fail("a stopper changed without a logged event (instrumentation gap)", {"scenario": sc, **g})
+            for key in ("cycles", "skipped_concurrent", "killer", "killer_incomplete", "exits"):
+                ctx.count("tie_units", key, st[key])
+            for r_, i_, w_ in zip(rq, im, wh):
+                reqs.append(r_)
+                impls.append(i_)
+                where.append({"scenario": sc, **w_, "corpus": name})
+        if not reqs:
+            continue
+        try:
+            outs = ctx.driver.ask(reqs)
+        except leanio.LeanError as e:
+            ctx.tie_fail(f"Lean driver failed: {e}", {"log": e.log})
+            return agg
+        for req, impl, out, wh in zip(reqs, impls, outs, where):
+            if not out or out[0] != "ok":
+                ctx.tie_fail("the driver rejected a step", {"request": req, "answer": out, **wh})
+                continue
+            m = out[1]
+            if req[0] == "C09.cycle":
+                model = {"handlers": [{k: h[k] for k in ("id", "spawned", "run", "forever")} for h in m["handlers"]],
+                         "delays": m["delays"],
+                         "known": all(h["known"] for h in m["handlers"]) if m["handlers"] else impl["known"]}
+                if impl["known"] is None:
+                    model["known"] = None
+            else:
+                model = m
+            key, busy = _shape(req, impl)
+            ctx.case(key=key, nontrivial=busy,
+                     sample={"request": req, "impl": impl, "scenario_seed": wh["scenario"].get("seed")} if busy and wh["kind"] != "exit" else None)
+            ctx.count("case_kind", wh["kind"])
+            ctx.compare(f"C09 {wh['kind']}", impl, model, {"request": req, **wh})
+    return agg
+
+
+def run(ctx: Ctx) -> None:
+    try:
+        guarded = timer_loop_guarded()
+    except ExtractError:
+        guarded = None
+    ctx.extra["timer_idle_loop_guarded_in_tree"] = guarded
+    corpus = _corpus()
+    n = ctx.budget(200, 10000)
+    gen = [gen_scenario(ctx.rng, ctx.seed * 1_000_000 + i) for i in range(n)]
+    agg = _run_batch(ctx, [sc for _, sc in corpus] + gen, [nm for nm, _ in corpus] + [None] * len(gen))
+    ctx.extra["stalls"] = agg
+    # the micro-step model against the tree: the F1 witness spins in the model iff the real run stalls
+    f1 = next((sc for nm, sc in corpus if nm == "F1.json"), None)
+    if f1 is not None and guarded is not None:
+        from ..sim import pool
+        res = pool.run_many([f1], wall=WALL)[0]
+        stalled = bool(res.get("stall")) and classify_stall(res)[1] == F1_SIG
+        req = ["C09.timer", {"cfg": {"initialDelay": None, "idle": 64, "interval": None, "sharp": False, "guarded": guarded},
+                             "env": {"now": 256, "stop": True, "idleReset": 64},
+                             "loc": {"pc": "idleLoop", "started": 129, "done": True, "errDelay": 0}, "k": 64}]
+        try:
+            out = ctx.driver.ask([req, ["C09.variant"]])
+            ctx.compare("F1 witness: the real run stalls in the idle loop <=> the micro-step model spins", stalled,
+                        out[0][1]["spinning"] and not out[0][1]["settles"], {"scenario": f1, "guarded_in_tree": guarded})
+            if out[1][1]["treeGuarded"] != guarded:
+                ctx.notes.append("Model.treeGuarded differs from the tree under test (informative; the theorems cover both variants)")
+                print(f"C09 note: the tree's _timer idle loop is {'guarded' if guarded else 'unguarded'}; "
+                      f"Kopf.C09.treeGuarded = {out[1][1]['treeGuarded']}", file=sys.stderr)
+        except leanio.LeanError as e:
+            ctx.tie_fail(f"Lean driver failed: {e}", {"log": e.log})
+
+
+def search(ctx: Ctx, broken: list) -> None:
+    """A proof/tie is broken and the oracle saw nothing so far: look for a failing history, oracle only."""
+    n = ctx.budget(1500, 6000)
+    gen = [gen_scenario(ctx.rng, 7_000_000 + ctx.seed * 1_000_000 + i) for i in range(n)]
+    for b in broken[:10]:
+        sc = (b.replay or {}).get("input", {}).get("scenario") if isinstance(b.replay, dict) else None
+        if sc:
+            gen.insert(0, sc)
+    for k in range(0, len(gen), CHUNK):
+        _run_batch(ctx, gen[k:k + CHUNK], [None] * len(gen[k:k + CHUNK]), oracle_only=True)
+        known = [F1_SIG, F10_SIG]
+        if any(f.kind == "oracle" and f.signature not in known for f in ctx.failures):
+            return
+
+
+def replay(ctx: Ctx, data: dict) -> None:
+    rep = data.get("replay", data)
+    sc = rep.get("scenario") or rep.get("input", {}).get("scenario")
+    if sc is None:
+        print("C09: the replay file names a broken obligation, not a scenario: re-running the check", file=sys.stderr)
+        run(ctx)
+        return
+    sc = dict(sc)
+    sc["runner"] = RUNNER
+    _run_batch(ctx, [sc], [None])
